@@ -4,6 +4,7 @@ mod verif_pktprop {
 
     // Ethernet(14) + VLAN(4) + IPv4(20, IHL 5) + UDP(8) + 2 payload bytes, everything else symbolic:
     // the EtherType / protocol bytes are symbolic, so every dispatch branch of get_inner is explored
+    fn stub_format(_args: std::fmt::Arguments<'_>) -> String { String::new() }
     const N: usize = 48;
     fn frame() -> [u8; N] {
         let mut a: [u8; N] = kani::any();
@@ -46,10 +47,10 @@ mod verif_pktprop {
         std::mem::forget(out); std::mem::forget(r); std::mem::forget(vm); std::mem::forget(root); std::mem::forget(pkt);
     }
     // kinds: 0 packet, 1 eth, 2 vlan, 3 ipv4, 4 ipv6, 5 udp, 6 tcp, 7 null
-    #[kani::proof] fn c15_path_eth_ipv4_udp() { check_dollar(3, 0x0800, None, Some(17), &[0, 1, 3, 5]); }
-    #[kani::proof] fn c15_path_eth_ipv4_tcp() { check_dollar(3, 0x0800, None, Some(6), &[0, 1, 3, 6]); }
-    #[kani::proof] fn c15_path_eth_vlan_ipv4_udp() { check_dollar(4, 0x8100, Some(0x0800), Some(17), &[0, 1, 2, 3, 5]); }
-    #[kani::proof] fn c15_path_eth_vlan_ipv4() { check_dollar(3, 0x8100, Some(0x0800), Some(17), &[0, 1, 2, 3]); }
-    #[kani::proof] fn c15_path_eth_unknown() { check_dollar(2, 0x0806, None, None, &[0, 1, 7]); }
-    #[kani::proof] fn c15_path_eth_ipv4_unknown() { check_dollar(3, 0x0800, None, Some(1), &[0, 1, 3, 7]); }
+    #[kani::proof] #[kani::stub(alloc::fmt::format, stub_format)] fn c15_path_eth_ipv4_udp() { check_dollar(3, 0x0800, None, Some(17), &[0, 1, 3, 5]); }
+    #[kani::proof] #[kani::stub(alloc::fmt::format, stub_format)] fn c15_path_eth_ipv4_tcp() { check_dollar(3, 0x0800, None, Some(6), &[0, 1, 3, 6]); }
+    #[kani::proof] #[kani::stub(alloc::fmt::format, stub_format)] fn c15_path_eth_vlan_ipv4_udp() { check_dollar(4, 0x8100, Some(0x0800), Some(17), &[0, 1, 2, 3, 5]); }
+    #[kani::proof] #[kani::stub(alloc::fmt::format, stub_format)] fn c15_path_eth_vlan_ipv4() { check_dollar(3, 0x8100, Some(0x0800), Some(17), &[0, 1, 2, 3]); }
+    #[kani::proof] #[kani::stub(alloc::fmt::format, stub_format)] fn c15_path_eth_unknown() { check_dollar(2, 0x0806, None, None, &[0, 1, 7]); }
+    #[kani::proof] #[kani::stub(alloc::fmt::format, stub_format)] fn c15_path_eth_ipv4_unknown() { check_dollar(3, 0x0800, None, Some(1), &[0, 1, 3, 7]); }
 }
